@@ -14,11 +14,13 @@ func run(c *core.C) {
 	d := core.Pick(c, 0, 2)
 	or := tmworld.Oracles{C21: true}
 	mk := func(p tmworld.Params, adv, rec int, uses bool) *tmworld.Scenario {
-		return tmworld.New(tmworld.Config{P: p, MaxAdv: adv, MaxRec: rec, Mis: true, Uses: uses, FullInactive: true}, or)
+		// with the use operations the complete update alphabet stays enabled on an inactive client (gating);
+		// the deep part keeps two update canaries and one misbehaviour canary there
+		return tmworld.New(tmworld.Config{P: p, MaxAdv: adv, MaxRec: rec, Mis: true, Uses: uses, FullInactive: uses}, or)
 	}
 	parts := []ksim.Part{
 		{Name: "status-and-uses", Sc: mk(tmworld.Params{Rev: 1, Base: 0, N: n}, 3, 2, true), Cfg: ksim.Config{MaxDepth: 4 + d}, Share: 0.6},
-		{Name: "status-deep/no-use-ops", Sc: mk(tmworld.Params{Rev: 1, Base: 0, N: n}, 4, 2, false), Cfg: ksim.Config{MaxDepth: 5 + d}, Share: 0.8},
+		{Name: "status-deep/no-use-ops", Sc: mk(tmworld.Params{Rev: 1, Base: 0, N: n}, core.Pick(c, 3, 4), 2, false), Cfg: ksim.Config{MaxDepth: 5 + d}, Share: 0.8},
 		{Name: "rev47/heights-12031..(12032=0x2f00)", Sc: mk(tmworld.Params{Rev: 47, Base: 12030, N: n}, 2, 1, true), Cfg: ksim.Config{MaxDepth: 3 + d}},
 	}
 	ksim.RunParts(c, parts, [][]ksim.Op{
